@@ -24,6 +24,14 @@ const NAMES: &[&str] = &[
     "set-cookie",
     "Set-Cookie",
     "b",
+    "c",
+    "d",
+    "x-c",
+    "accept",
+    "Host",
+    "cache-control",
+    "x-e",
+    "x-f",
 ];
 const VALUES: &[&str] = &["v1", "v2", "", "v1; long value with spaces and , commas", "3"];
 
@@ -571,5 +579,15 @@ pub fn run(cfg: &RunCfg) -> Report {
 
 pub fn replay(_cfg: &RunCfg, _phase: &str, case: &serde_json::Value) -> Result<Verdict, String> {
     let c: Case = runner::from_json(case)?;
-    Ok(run_case(&c))
+    // The map's inter-name iteration order is randomised per map instance (ahash). The oracle
+    // does not depend on it, but whether an order-dependent defect shows in one run does: a
+    // replay runs the case on 32 fresh maps and fails if any of them fails.
+    let mut v = run_case(&c);
+    for _ in 0..31 {
+        if v.is_fail() {
+            break;
+        }
+        v = run_case(&c);
+    }
+    Ok(v)
 }
